@@ -136,6 +136,7 @@ type Thread struct {
 	Atomic     int // nesting depth of atomic sections
 	Pending    *VisOp
 	Bars       []spawnBar // spawn barriers: accesses of the ancestors that precede the go statements happen-before this thread
+	Held       []Ptr       // mutexes / wait groups this thread holds or has waited for (race check)
 	Open       []accessRec // cells accessed since the last visible operation (race check)
 	Start      *StartCall
 	Name       string
